@@ -60,13 +60,21 @@ def handle (case impl : List String) : Verdict :=
         ((pixelAt io.color s.w px py).getD sentinelBits != sentinelBits ||
          (match io.depth with | some d => (pixelAt d s.w px py).getD s.zinit != s.zinit | none => false))
     let v := v.withSpec checkerBad "discarded-fragment-written" "a fragment the shader discarded changed colour or depth"
+    -- colour and depth are written under the same condition: a pixel whose colour changed must have
+    -- had its depth written too when both writes are on
+    let depthMissing := s.tgtFb && s.cw && s.dw && (List.range (s.w * s.h)).any fun i =>
+      (io.color.getD i sentinelBits != sentinelBits) &&
+        (match io.depth with | some d => d.getD i s.zinit == s.zinit | none => false)
+    let v := v.withSpec depthMissing "depth-write-on-not-written"
+      "a fragment changed the colour buffer but left the depth buffer at its initial value although depth writes are on"
     let nWritten := io.color.foldl (fun n c => if c != sentinelBits then n + 1 else n) 0
     let v := v.withSpec (nWritten > g 6) "stats-frags-out" s!"{nWritten} pixels changed colour but frags.o = {g 6}"
     -- culling, for single-triangle scenes
     match secs.getD 5 [] with
     | "1" :: ab :: af :: bb :: bf :: an :: bn :: ndiff :: rest =>
       let n (t : String) := t.toNat?.getD 0
-      let big := tris.all fun (a, b, c) => ratAbs (Spec.Raster.edge (p2 a) (p2 b) (p2 c)) > 4
+      let totalArea := tris.foldl (fun (acc : Rat) (a, b, c) => acc + ratAbs (Spec.Raster.edge (p2 a) (p2 b) (p2 c))) (0 : Rat)
+      let big := totalArea > 8 && n an ≥ 3 && n bn ≥ 3
       let v := v.addTag (if big then "cull-pair" else "cull-pair-tiny")
       if !big || n an == 0 then v else
       let v := v.withSpec (!((n ab > 0) != (n bb > 0))) "cull-not-exactly-one-order"
@@ -82,7 +90,12 @@ def handle (case impl : List String) : Verdict :=
       let v := v.withSpec (n ndiff > 0 && offBand) "orders-differ-off-edge" "the two vertex orders differ away from edge pixels with culling off"
       -- prims.o counts triangles surviving the cull: a culled order (nothing drawn although the other
       -- order draws) must report 0, a drawn one 1 (single visible triangle, no clipping)
-      match (secs.getD 6 []).map n with
+      let v := match (secs.getD 6 []).map n with
+        | [abF, bbF] =>
+          v.withSpec ((n ab > 0) == (abF > 0) || (n bb > 0) == (bbF > 0)) "cull-ignores-screen-winding"
+            s!"mirroring the viewport reverses the on-screen winding, yet the same vertex order survives back-face culling (normal: {n ab},{n bb}; mirrored: {abF},{bbF})"
+        | _ => v
+      match (secs.getD 7 []).map n with
       | [pab, paf, pbb, pbf, pan, pbn] =>
         let visible := (sceneTags s io).contains "visible"
         let wrong (drawn po : Nat) := (drawn == 0 && po != 0) || (drawn > 0 && po != 1)
